@@ -69,8 +69,52 @@ def pathPrefix : PathTok → Outcome Key
   | .single ns => toLP ns
   | .multi segs => toLPNested segs
 
+/-- one sub-operation of `vseq` on the view with prefix `pfx` -/
+def stepViewSub (m : Store Val) (pfx : Key) (sub : String) : Store Val × String :=
+  match sub.splitOn ":" with
+  | ["g", k] =>
+    match unhex k with
+    | some k => (m, match View.get m pfx k with | some v => "some " ++ hex v | none => "none")
+    | none => (m, "bad-op")
+  | ["s", k, v] =>
+    match unhex k, unhex v with
+    | some k, some v => (View.set m pfx k v, "ok")
+    | _, _ => (m, "bad-op")
+  | ["r", k] =>
+    match unhex k with
+    | some k => (View.remove m pfx k, "ok")
+    | none => (m, "bad-op")
+  | [kind, s, e, o] =>
+    match unhexOpt s, unhexOpt e, parseOrder o with
+    | some s, some e, some o =>
+      let r := View.range m pfx s e o
+      if kind == "R" then (m, fmtRecords r)
+      else if kind == "K" then (m, fmtList (r.map (·.1)))
+      else if kind == "V" then (m, fmtList (r.map (·.2)))
+      else (m, "bad-op")
+    | _, _, _ => (m, "bad-op")
+  | _ => (m, "bad-op")
+
+def stepViewSubs (m : Store Val) (pfx : Key) : List String → Store Val × List String
+  | [] => (m, [])
+  | sub :: rest =>
+    let (m1, o) := stepViewSub m pfx sub
+    let (m2, os) := stepViewSubs m1 pfx rest
+    (m2, o :: os)
+
 def stepViews (m : Store Val) (toks : List String) : Store Val × String :=
   match toks with
+  | "vseq" :: p :: rw :: subs =>
+    match parsePath p with
+    | some p =>
+      match pathPrefix p with
+      | .ok pfx =>
+        if rw == "rw" then
+          let (m1, outs) := stepViewSubs m pfx subs
+          (m1, "|".intercalate outs)
+        else (m, "panic")
+      | _ => (m, "panic")
+    | none => (m, "bad-op")
   | ["base-set", k, v] =>
     match unhex k, unhex v with
     | some k, some v => (m.set k v, "ok")
